@@ -363,7 +363,7 @@ def tree_ident():
 def write_replay(pid: str, profile: str, seed, best, final, shrink_runs: int) -> str:
     os.makedirs(os.path.join(VERIF, "replays"), exist_ok=True)
     d8 = final["digest"][:8]
-    path = os.path.join(VERIF, "replays", f"{pid}-{seed}-{d8}.json")
+    path = os.path.join(VERIF, "replays", f"{pid}-{seed}-{d8}{'-O' if sys.flags.optimize else ''}.json")
     doc = {
         "property": pid, "profile": profile, "seed": seed, "choices": best,
         "choice_labels": final.get("labels"),
@@ -372,6 +372,8 @@ def write_replay(pid: str, profile: str, seed, best, final, shrink_runs: int) ->
         "shrink_runs": shrink_runs, "tree": tree_ident(),
         "replay_cmd": f"/verif/bin/check {pid} --replay {path}",
     }
+    if sys.flags.optimize:
+        doc["python_optimize"] = 1  # observed under `python -O` (assertions stripped): --replay re-executes itself that way
     with open(path, "w") as f:
         json.dump(doc, f, indent=1, default=repr)
     return path
@@ -381,6 +383,9 @@ def replay(path: str) -> int:
     with open(path) as f:
         doc = json.load(f)
     pid = doc["property"]
+    if doc.get("python_optimize") and not sys.flags.optimize:
+        # the violation was observed with assertions stripped: replay in the same interpreter mode
+        os.execv(sys.executable, [sys.executable, "-O", os.path.join(VERIF, "bin", "check"), pid, "--replay", path])
     prop = load_prop(pid)
     res = execute(prop, doc["profile"], Source(prefix=doc["choices"], record_labels=True),
                   keep_log=True, known={})
@@ -435,6 +440,9 @@ def check(pid: str, tier: str, base_seed: int, workers: int | None = None) -> in
     wall_cap = float(os.environ.get("VERIF_WALL_CAP", prop.wall_caps.get(tier, 120 if tier == "quick" else 1500)))
     deadline = _real_monotonic() + wall_cap
     scale = float(os.environ.get("VERIF_SCALE", "1"))
+    o_slice = bool(sys.flags.optimize)  # this process IS the `python -O` slice of a check (started by the check itself)
+    if o_slice:
+        scale *= 0.1
     jobs = []
     for profile, count in prop.tiers[tier]:
         count = max(1, int(count * scale))
@@ -486,7 +494,7 @@ def check(pid: str, tier: str, base_seed: int, workers: int | None = None) -> in
 
         # ---- regressions: committed replays of fixed findings must stay silent -------------------
         regress = []
-        if not pool_failed:
+        if not pool_failed and not o_slice:
             try:
                 regress = pool.submit(_regression_job, pid).result(timeout=120)
             except Exception as exc:  # noqa: BLE001
@@ -507,7 +515,7 @@ def check(pid: str, tier: str, base_seed: int, workers: int | None = None) -> in
         outs = []
         for hs in ("0", "4242"):
             env = dict(os.environ, PYTHONHASHSEED=hs, VERIF_SEED=str(base_seed))
-            p = subprocess.run([sys.executable, os.path.join(VERIF, "bin", "check"), pid, "--digests", str(ndet)],
+            p = subprocess.run([sys.executable, *(["-O"] if o_slice else []), os.path.join(VERIF, "bin", "check"), pid, "--digests", str(ndet)],
                                capture_output=True, text=True, env=env, timeout=600)
             outs.append(p.stdout.strip().splitlines()[-1] if p.stdout.strip() else f"ERR {p.stderr[-500:]}")
         det["fresh_interpreter_runs"] = 2
@@ -558,9 +566,26 @@ def check(pid: str, tier: str, base_seed: int, workers: int | None = None) -> in
         print(f"violation rule/signature: {r['signature']} ({r['count']} runs) :: {r['msg']}")
         print(f"VIOLATION property={pid} replay={r['replay']}", flush=True)
 
+    # ---- the same check once more under `python -O` (assertions of the library stripped), a tenth of the runs ---------
+    o_summary = None
+    if not o_slice and os.environ.get("VERIF_PYTHON_O", "1") != "0" and not pool_failed:
+        o_summary = _python_o_slice(pid, tier, base_seed, workers, wall_cap)
+        for line in o_summary.pop("lines"):
+            print(line, flush=True)
+        for r in o_summary.get("violations_reported", []):
+            reported.append(dict(r, interpreter="python -O"))
+        if o_summary.get("harness"):
+            harness_fail = True
+        wall = _real_monotonic() - t0
+
     evid = build_evidence(prop, pid, tier, base_seed, total, det, wall, reported, known)
+    if o_summary is not None:
+        evid["coverage"]["python_O_slice"] = {k: v for k, v in o_summary.items() if k != "violations_reported"}
     os.makedirs(os.path.join(VERIF, "evidence"), exist_ok=True)
-    with open(os.path.join(VERIF, "evidence", f"{pid}.json"), "w") as f:
+    out_path = (os.path.join(VERIF, "replays", f"o-slice-{pid}.json") if o_slice
+                else os.path.join(VERIF, "evidence", f"{pid}.json"))
+    os.makedirs(os.path.dirname(out_path), exist_ok=True)
+    with open(out_path, "w") as f:
         json.dump(evid, f, indent=1, default=repr)
     rate = total["evaluations"] / wall * 3600 if wall > 0 else 0
     print(f"property={pid} tier={tier} executions={total['evaluations']} seeds={total['seeds']} "
@@ -572,6 +597,40 @@ def check(pid: str, tier: str, base_seed: int, workers: int | None = None) -> in
     if harness_fail:
         return 2
     return 0
+
+
+def _python_o_slice(pid, tier, base_seed, workers, wall_cap) -> dict:
+    """Run this very check in a child interpreter started with -O (the library's `assert` statements - and debug-only
+    behaviour - are compiled away) on a tenth of the run counts; returns a summary for the evidence file."""
+    out_path = os.path.join(VERIF, "replays", f"o-slice-{pid}.json")
+    try:
+        os.remove(out_path)
+    except OSError:
+        pass
+    env = dict(os.environ, VERIF_SEED=str(base_seed), VERIF_WORKERS=str(workers))
+    lines, summary = [], {"interpreter": "python -O (sys.flags.optimize=1)", "run_count_factor": 0.1}
+    try:
+        p = subprocess.run([sys.executable, "-O", os.path.join(VERIF, "bin", "check"), pid, "--tier", tier],
+                           capture_output=True, text=True, env=env, timeout=wall_cap + 300)
+    except Exception as exc:  # noqa: BLE001
+        return {"lines": [f"HARNESS: python -O slice failed to run: {exc!r}"], "harness": True, **summary}
+    for line in p.stdout.splitlines():
+        if line.startswith(("violation rule/signature", "VIOLATION ", "HARNESS", "NOTE:")):
+            lines.append(("[python -O] " if not line.startswith("VIOLATION ") else "") + line)
+    try:
+        with open(out_path) as f:
+            ev = json.load(f)
+        cov = ev["coverage"]
+        summary.update(executions=cov["evaluations"], distinct_nontrivial=cov["distinct_nontrivial"],
+                       executions_per_profile=cov["executions_per_profile"], violations=ev["violations"],
+                       violations_reported=cov["violations_reported"], exit_code=p.returncode, wall_s=ev["wall_s"])
+    except Exception as exc:  # noqa: BLE001
+        lines.append(f"HARNESS: python -O slice left no summary ({exc!r}); exit code {p.returncode}; {p.stderr[-300:]}")
+        summary["harness"] = True
+    if p.returncode == 2:
+        summary["harness"] = True
+    summary["lines"] = lines
+    return summary
 
 
 def build_evidence(prop, pid, tier, base_seed, total, det, wall, reported, known):
